@@ -27,7 +27,7 @@ SHAPES = [
     {"a": "co", "b": "com", "c": "uk-1", "z": "www"},
 ]
 
-PROPERTY_INVARIANTS = {"DiskIsASnapshot", "CrashLeavesSnapshot", "Converged", "NewestWins"}
+PROPERTY_INVARIANTS = {"DiskIsASnapshot", "ConvergedFile", "NewestWins"}
 
 PERSIST_ENTRIES = {
     "E1": {"k": "p", "n": ["a", "c"]},
